@@ -97,11 +97,12 @@ def m14 : Str := m13 ++ [' ']
 def dots3 : Str := ['.', '.', '.']
 def ell : Char := '…'
 
-/-- `regex.compile(r"\s*# paroxython:(?: (.*))?$").match(line)` and then `m[1] or ""`, for a line
+/-- `regex.compile(r"[\s\x1c-\x1f]*# paroxython:(?: (.*))?$").match(line)` (the white space of
+`str.strip`, 80f9da8) and then `m[1] or ""`, for a line
 without `\n`: after the white space and the marker comes either the end of the line, or a space and
 the rest of the line (possibly empty); anything else is not an isolated hint. -/
 def isolatedRest (line : Str) : Option Str :=
-  let r := line.dropWhile isSpaceRe
+  let r := line.dropWhile isSpacePy
   if m13.isPrefixOf r then
     match r.drop 13 with
     | [] => some []
@@ -135,10 +136,10 @@ def matchLabel (t : Str) : Option (Before × Str × Bool) :=
   | c :: _ => if isWord c then some (p.1, (splitAfter p.2).1, (splitAfter p.2).2) else none
   | [] => none
 
-/-- `regex.compile(r"\s*# paroxython: .*").sub("", text)` over the WHOLE text: a match starts at
+/-- `regex.compile(r"[\s\x1c-\x1f]*# paroxython: .*").sub("", text)` over the WHOLE text: a match starts at
 the first position from which a run of white space (newlines included) is followed by the marker,
 and extends to the end of the marker's line. -/
-def hintAhead (s : Str) : Bool := m14.isPrefixOf (s.dropWhile isSpaceRe)
+def hintAhead (s : Str) : Bool := m14.isPrefixOf (s.dropWhile isSpacePy)
 
 def subHints : Bool → Str → Str
   | _, [] => []
